@@ -1,9 +1,12 @@
 (* C19 — Metadata-only transfer: full listing recorded, only selected files materialised.
    Only the property theorems (closed by [exact]) and their [Print Assumptions]; the model is
-   Model/MetaOnly.v, the proofs are in Proofs/MetaOnlyP.v. *)
+   Model/MetaOnly.v (+ the vocabulary of the compositions in Model/MetaTransfer.v), the proofs are
+   in Proofs/MetaOnlyP.v and Proofs/MetaTransferP.v (compositions with C20, C01, C02). *)
 From Coq Require Import List NArith Bool.
-From FS Require Import Sx Model.Path Model.Stat Model.Validator Model.Hardlinks Model.MetaOnly
-  Proofs.ValidatorP Proofs.MetaOnlyP.
+From FS Require Import Sx Model.Path Model.Stat Model.Validator Model.Hardlinks Model.Diff Model.AbsDest
+  Model.Codec Model.MetaBuffer Model.Listing Model.Converge Model.ConvergeA Model.MetaOnly Model.MetaTransfer
+  Proofs.ValidatorP Proofs.MetaOnlyP Proofs.MetaTransferP.
+From FS Require Proofs.ConvergeP Proofs.ReceiveP.
 From FSGen Require FromSource.
 Import ListNotations.
 Open Scope nat_scope.
@@ -37,7 +40,7 @@ Proof. exact ids_complete_proof. Qed.
 
 (* buffer.go: whatever the record sizes (records larger than a chunk, chunk roll-over),
    WriteTo emits the concatenation of the records in allocation order. *)
-Theorem buffer_is_concat : forall recs, buf_bytes (fold_left alloc_write recs []) = concat recs.
+Theorem buffer_is_concat : forall recs, buf_bytes (fold_left MetaOnly.alloc_write recs []) = concat recs.
 Proof. exact buffer_is_concat_proof. Qed.
 
 (* ---- what is handed to the diff / writer ----
@@ -96,6 +99,99 @@ Theorem recv_valid_of_valid : forall stats,
   valid_stream (recv_stream stats).
 Proof. exact recv_valid_of_valid_proof. Qed.
 
+
+(* ================= compositions with C20 (codec), C01 (convergence), C02 (requests) ================= *)
+
+(* ---- the listing file, byte level ----
+   [listing_file sel stats] (Model/MetaTransfer.v) = WriteTo of this property's buffer model after
+   one alloc per recorded Stat of  4-byte little-endian SizeVT ++ MarshalVT  (C20's
+   Listing.listing_record on C20's Codec.encode_stat).  Reading it back record by record
+   (Listing.decode_listing = the loop of receive_test.go:parseFSMetadata on Codec.decode_stat)
+   yields exactly the announced Stats minus the entry named .fsutil-metadata, in order.
+   Hypothesis, explicitly: every recorded Stat is [listable] (Model/Listing.v) =
+   Codec.wf_stat (mode, uid, gid < 2^32; size, mtime, dev numbers < 2^64 as two's complement;
+   xattr keys distinct; SizeVT < 2^64)  /\  SizeVT < 2^32 (the length is written as uint32(n)). *)
+Theorem listing_roundtrip : forall sel stats,
+  (forall s, In s stats -> is_listing s = false -> listable s) ->
+  decode_listing (listing_file sel stats) = Some (recv_stream stats).
+Proof. exact listing_roundtrip_proof. Qed.
+
+(* ... for every iteration order of the xattr map, chosen independently for every record *)
+Theorem listing_roundtrip_any_order : forall sel stats recs,
+  (forall s, In s stats -> is_listing s = false -> listable s) ->
+  Forall2 lrecord_of (r_listing (meta_recv sel stats)) recs ->
+  decode_listing (listing_file_of recs) = Some (recv_stream stats).
+Proof. exact listing_roundtrip_any_order_proof. Qed.
+
+(* this property's transcription of buffer.go and C20's (Model/MetaBuffer.v) are the same *)
+Theorem buffers_agree : forall recs,
+  fold_left MetaOnly.alloc_write recs [] = alloc_all recs /\ listing_file_of recs = write_to (alloc_all recs).
+Proof. exact buffers_agree_proof. Qed.
+
+(* ---- convergence ----
+   B = the source view with contents (C01's vocabulary: ConvergeA.wf_entries = strictly ascending,
+   ancestor-closed, canonical hard links), A = the prior destination.
+   [meta_proj sel B] = the entries of B other than the listing name that are selected or are a
+   directory with a selected entry strictly below: selected entries + needed ancestors.
+   (1) its Stats are exactly what the receive loop hands to the diff/writer ... *)
+Theorem projection_is_forwarded : forall sel B,
+  valid_stream (recv_stream (map fst B)) ->
+  map fst (meta_proj sel B) = r_forwarded (meta_recv sel (map fst B)).
+Proof. exact proj_is_forwarded_proof. Qed.
+
+(* ... where the receiver's validator accepts every well-formed source listing with clean
+   relative paths and nothing below the listing name ... *)
+Theorem receiver_accepts_wf : forall L,
+  wf_listing L -> (forall s, In s L -> ok_path (st_path s) = true) -> listing_dependents L = false ->
+  valid_stream (recv_stream L).
+Proof. exact receiver_accepts_wf_proof. Qed.
+
+(* ... (2) the bytes delivered under a registered id are those of that entry of the projection
+   (ids are positions in the announced sequence: ids_aligned) ... *)
+Theorem registered_content : forall sel B p id,
+  In (p, id) (r_files (meta_recv sel (map fst B))) ->
+  exists s c, nth_error B id = Some (s, c) /\ st_path s = p /\ In (s, c) (meta_proj sel B).
+Proof. exact registered_content_proof. Qed.
+
+(* ... (3) the projection is itself a well-formed listing with contents (given a link-closed
+   selector and no entry depending on the skipped listing-name entry) ... *)
+Theorem projection_wf : forall sel B,
+  wf_entries B -> listing_dependents (map fst B) = false -> link_closed sel (recv_stream (map fst B)) = true ->
+  wf_entries (meta_proj sel B).
+Proof. exact proj_wf_entries. Qed.
+
+(* ... hence (C01.diff_apply_converges on the level-A receiver of C02/C05): the transfer does
+   not fail, the destination is ≈ the projection — equal path set (every stale entry of A is
+   gone), per-entry equality, hard-link partition — and nothing is left under the listing name
+   (a stale listing file / symlink / directory of A is removed before the epilogue writes the
+   new file).  AbsDest.identity_faithful (same identity key => same bytes) is C01's hypothesis. *)
+Theorem meta_transfer_converges : forall sel (H : bytes -> bytes) (hdr : stat -> bytes) d A B,
+  wf_entries A -> wf_entries B ->
+  listing_dependents (map fst B) = false -> link_closed sel (recv_stream (map fst B)) = true ->
+  AbsDest.identity_faithful d A (meta_proj sel B) ->
+  let r := receive_abs H hdr Fresh d A (meta_proj sel B) in
+  ds_err r = false /\ approx A (meta_proj sel B) (view_of (ds_map r)) /\
+  find_obs listing_name (view_of (ds_map r)) = None.
+Proof. exact meta_transfer_converges_proof. Qed.
+
+(* ---- REQ packets ----
+   [req_ids files reqs]: asyncDataFunc looks the requested path up in r.files (None = "invalid
+   file request").  With C02.reqs_exact: the ids requested are, in order, exactly the positions
+   (among ALL announced STATs, the skipped one included) of the [wanted] entries: not the listing
+   name, selected, regular without Linkname (wants_content), and absent from A or there with
+   another identity key (negb (unchanged_b d (map fst A) s)); every request finds its id.
+   Hypothesis beyond those of meta_transfer_converges: a source entry the writer treats as a
+   regular file has no type bit at all (fileCanRequestData) — excludes ModeSocket/ModeIrregular
+   entries, for which plain transfers fail in the same way. *)
+Theorem meta_req_ids : forall sel (H : bytes -> bytes) (hdr : stat -> bytes) d A B,
+  wf_entries A -> wf_entries B ->
+  listing_dependents (map fst B) = false -> link_closed sel (recv_stream (map fst B)) = true ->
+  AbsDest.identity_faithful d A (meta_proj sel B) ->
+  (forall s, In s (map fst B) -> wants_content s = true -> mode_is_regular (st_mode s) = true) ->
+  req_ids (r_files (meta_recv sel (map fst B))) (ds_reqs (receive_abs H hdr Fresh d A (meta_proj sel B)))
+  = map Some (positions_from 0 (wanted sel d (map fst A)) (map fst B)).
+Proof. exact meta_req_ids_proof. Qed.
+
 Print Assumptions listing_exact.
 Print Assumptions ids_aligned.
 Print Assumptions ids_only_selected.
@@ -106,6 +202,15 @@ Print Assumptions forwarded_exact_plain.
 Print Assumptions stack_exact.
 Print Assumptions forwarded_valid.
 Print Assumptions recv_valid_of_valid.
+Print Assumptions listing_roundtrip.
+Print Assumptions listing_roundtrip_any_order.
+Print Assumptions buffers_agree.
+Print Assumptions projection_is_forwarded.
+Print Assumptions receiver_accepts_wf.
+Print Assumptions registered_content.
+Print Assumptions projection_wf.
+Print Assumptions meta_transfer_converges.
+Print Assumptions meta_req_ids.
 
 (* ---- source-derived obligations (regenerated from /repo on every run) ---- *)
 Example from_source_listing_name : FromSource.metadata_path = listing_name.
@@ -155,6 +260,64 @@ Example ex_not_link_closed :
   link_closed sel' (recv_stream ex_stream) = false
   /\ hardlink_check (r_forwarded (meta_recv sel' ex_stream)) = Some 2%nat.
 Proof. vm_compute. split; reflexivity. Qed.
+
+(* ---- the compositions on the same stream ---- *)
+(* the listing file of ex_stream: 8 records, read back exactly; a cut file is an error or a
+   shorter listing, never a wrong one *)
+Example ex_listing_file :
+  (forall s, In s ex_stream -> is_listing s = false -> listable s)
+  /\ decode_listing (listing_file ex_sel ex_stream) = Some (recv_stream ex_stream)
+  /\ length (listing_file ex_sel ex_stream) = 149%nat
+  /\ firstn 4%nat (listing_file ex_sel ex_stream) = [13; 0; 0; 0]
+  /\ decode_listing (firstn 148%nat (listing_file ex_sel ex_stream)) = None
+  /\ decode_listing (firstn 17%nat (listing_file ex_sel ex_stream)) = Some (firstn 1%nat (recv_stream ex_stream)).
+Proof.
+  split.
+  - intros s Hs _. cbn [ex_stream In] in Hs.
+    repeat (destruct Hs as [<-|Hs]; [vm_compute; repeat split; reflexivity|]). destruct Hs.
+  - vm_compute. repeat split; reflexivity.
+Qed.
+
+(* source with contents (a/d/a is a second name of a/b/c), selector = ex_sel + "b";
+   prior destination: a stale listing file, the stale a/b/d, and b unchanged *)
+Definition ex_B : list AbsDest.entry :=
+  combine ex_stream [[9]; []; []; [1;2;3]; [4;5;6]; []; []; [1;2;3]; [7;8;9]].
+Definition ex_sel2 (s : stat) : bool := ex_sel s || bytes_eqb (st_path s) [B].
+Definition ex_A : list AbsDest.entry :=
+  [ (mkst listing_name F [], [0; 0]);
+    (mkst [A] ModeDir [], []); (mkst [A;47;B] ModeDir [], []); (mkst [A;47;B;47;D] F [], [4;5;6]);
+    (mkst [B] F [], [7;8;9]) ].
+
+Example ex_transfer_hypotheses :
+  wf_entries ex_A /\ wf_entries ex_B /\ listing_dependents (map fst ex_B) = false
+  /\ link_closed ex_sel2 (recv_stream (map fst ex_B)) = true
+  /\ AbsDest.identity_faithful DMetadata ex_A (meta_proj ex_sel2 ex_B)
+  /\ valid_stream (recv_stream (map fst ex_B))
+  /\ forallb (fun s => negb (wants_content s) || mode_is_regular (st_mode s)) (map fst ex_B) = true.
+Proof.
+  split; [apply ConvergeP.wf_entries_b_sound; vm_compute; reflexivity|].
+  split; [apply ConvergeP.wf_entries_b_sound; vm_compute; reflexivity|].
+  split; [vm_compute; reflexivity|]. split; [vm_compute; reflexivity|].
+  split; [apply ReceiveP.identity_faithful_b_sound; vm_compute; reflexivity|].
+  vm_compute. split; reflexivity.
+Qed.
+
+(* projection = a, a/b, a/b/c, a/d, a/d/a, b; the stale listing and a/b/d are gone, a/c never
+   appears; only a/b/c is requested, under id 3 (b is unchanged, a/d/a is a link), although the
+   registered ids are 3, 7, 8; the executable convergence oracle of C01 accepts the result *)
+Example ex_transfer :
+  let r := receive_abs (fun x : bytes => x) (fun _ => []) Fresh DMetadata ex_A (meta_proj ex_sel2 ex_B) in
+  map (fun e => st_path (fst e)) (meta_proj ex_sel2 ex_B) = [[A]; [A;47;B]; [A;47;B;47;C]; [A;47;D]; [A;47;D;47;A]; [B]]
+  /\ ds_err r = false
+  /\ converged_o false ex_A (meta_proj ex_sel2 ex_B) (view_of (ds_map r)) = true
+  /\ find_obs listing_name (view_of (ds_map r)) = None
+  /\ find_obs [A;47;B;47;D] (view_of (ds_map r)) = None
+  /\ ds_reqs r = [[A;47;B;47;C]]
+  /\ map snd (r_files (meta_recv ex_sel2 (map fst ex_B))) = [3%nat; 7%nat; 8%nat]
+  /\ req_ids (r_files (meta_recv ex_sel2 (map fst ex_B))) (ds_reqs r) = [Some 3%nat]
+  /\ positions_from 0 (wanted ex_sel2 DMetadata (map fst ex_A)) (map fst ex_B) = [3%nat]
+  /\ converged_o false ex_A ex_B (view_of (ds_map r)) = false.
+Proof. vm_compute. repeat split; reflexivity. Qed.
 
 (* ---- the corner the hypothesis [valid_stream (recv_stream stats)] excludes (finding
         listing-name-entry-has-dependents, witnesses in corpus/C19): the announced sequence is
